@@ -495,10 +495,197 @@ func (it *c17interp) doCall(fr *c17frame, x *ssa.Call) *c17v {
 	if g.Pkg != nil && (g.Pkg.Pkg.Path() == "fmt" || g.Pkg.Pkg.Path() == "errors") {
 		return &c17v{k: "nonnil"}
 	}
+	if len(args) == 1 && args[0].k == "app" {
+		// the parent relation written as a function: a constant table over the application id
+		if tab, two, def, ok := constTable(g); ok {
+			l := args[0].level
+			if _, isKey := tab[0]; isKey {
+				return it.fail("the parent table gives the base application a parent")
+			}
+			if l != c17Base && l < it.sc.n {
+				if two {
+					return &c17v{k: "tuple", elems: []*c17v{{k: "app", level: l + 1}, {k: "bool", b: true}}}
+				}
+				return &c17v{k: "app", level: l + 1}
+			}
+			if two {
+				return &c17v{k: "tuple", elems: []*c17v{{k: "int"}, {k: "bool", b: false}}}
+			}
+			if def != 0 {
+				return it.fail(fmt.Sprintf("the parent function %s answers %d, not the base application, for an application without a parent", g.Name(), def))
+			}
+			return &c17v{k: "int"}
+		}
+	}
 	if g.Blocks != nil && it.c.P.IsLibrary(g) && pkgOf(g) != nil && pkgOf(g).Path() == pkgDict {
 		return it.call(g, args)
 	}
 	return c17unk("call of " + g.Name())
+}
+
+// constTable reads a function of one integer parameter whose body only compares the parameter with constants
+// and returns constants (a switch, an if chain) as the table it denotes: tab holds the answers for the
+// constants compared against that differ from the answer for every other input; two is set for the
+// (value, found) form, in which tab holds the inputs that are found; def is the answer for every other input.
+func constTable(fn *ssa.Function) (tab map[int64]int64, two bool, def int64, ok bool) {
+	if fn == nil || fn.Blocks == nil || len(fn.Params) != 1 || fn.Signature.Recv() != nil {
+		return nil, false, 0, false
+	}
+	isInt := func(t types.Type) bool {
+		b, ok := t.Underlying().(*types.Basic)
+		return ok && b.Info()&types.IsInteger != 0
+	}
+	res := fn.Signature.Results()
+	switch {
+	case res.Len() == 1 && isInt(res.At(0).Type()):
+	case res.Len() == 2 && isInt(res.At(0).Type()) && types.Identical(res.At(1).Type().Underlying(), types.Typ[types.Bool]):
+		two = true
+	default:
+		return nil, false, 0, false
+	}
+	if !isInt(fn.Params[0].Type()) {
+		return nil, false, 0, false
+	}
+	var consts []int64
+	seen := map[int64]bool{}
+	pure := true
+	isParam := func(v ssa.Value) bool {
+		for {
+			switch x := v.(type) {
+			case *ssa.ChangeType:
+				v = x.X
+				continue
+			}
+			break
+		}
+		return v == fn.Params[0]
+	}
+	flow.Instrs(fn, func(in ssa.Instruction) {
+		switch x := in.(type) {
+		case *ssa.BinOp:
+			if x.Op != token.EQL && x.Op != token.NEQ {
+				pure = false
+				return
+			}
+			var k ssa.Value
+			switch {
+			case isParam(x.X):
+				k = x.Y
+			case isParam(x.Y):
+				k = x.X
+			default:
+				pure = false
+				return
+			}
+			n, ok := flow.ConstInt(k)
+			if !ok {
+				pure = false
+				return
+			}
+			if !seen[n] {
+				seen[n] = true
+				consts = append(consts, n)
+			}
+		case *ssa.If, *ssa.Jump, *ssa.Return, *ssa.Phi, *ssa.DebugRef, *ssa.ChangeType:
+		default:
+			pure = false
+		}
+	})
+	if !pure {
+		return nil, false, 0, false
+	}
+	// run evaluates the function for input in (other: an input different from every constant compared against)
+	run := func(in int64, other bool) (int64, bool, bool) {
+		blk := fn.Blocks[0]
+		var prev *ssa.BasicBlock
+		env := map[ssa.Value]ssa.Value{}
+		val := func(v ssa.Value) ssa.Value {
+			if w, ok := env[v]; ok {
+				return w
+			}
+			return v
+		}
+		for steps := 0; steps < 10000; steps++ {
+			var next *ssa.BasicBlock
+			for _, ins := range blk.Instrs {
+				switch x := ins.(type) {
+				case *ssa.Phi:
+					for i, p := range blk.Preds {
+						if p == prev {
+							env[x] = val(x.Edges[i])
+						}
+					}
+				case *ssa.If:
+					b, ok := val(x.Cond).(*ssa.BinOp)
+					if !ok {
+						if k, ok := val(x.Cond).(*ssa.Const); ok && k.Value != nil && k.Value.Kind() == constant.Bool {
+							if constant.BoolVal(k.Value) {
+								next = blk.Succs[0]
+							} else {
+								next = blk.Succs[1]
+							}
+							continue
+						}
+						return 0, false, false
+					}
+					kv := b.Y
+					if !isParam(b.X) {
+						kv = b.X
+					}
+					n, _ := flow.ConstInt(kv)
+					eq := !other && n == in
+					if b.Op == token.NEQ {
+						eq = !eq
+					}
+					if eq {
+						next = blk.Succs[0]
+					} else {
+						next = blk.Succs[1]
+					}
+				case *ssa.Jump:
+					next = blk.Succs[0]
+				case *ssa.Return:
+					n, ok := flow.ConstInt(val(x.Results[0]))
+					if !ok {
+						return 0, false, false
+					}
+					found := true
+					if two {
+						k, ok := val(x.Results[1]).(*ssa.Const)
+						if !ok || k.Value == nil || k.Value.Kind() != constant.Bool {
+							return 0, false, false
+						}
+						found = constant.BoolVal(k.Value)
+					}
+					return n, found, true
+				}
+			}
+			if next == nil {
+				return 0, false, false
+			}
+			prev, blk = blk, next
+		}
+		return 0, false, false
+	}
+	d, dfound, ok := run(0, true)
+	if !ok || (two && dfound) {
+		return nil, false, 0, false
+	}
+	tab = map[int64]int64{}
+	for _, k := range consts {
+		v, found, ok := run(k, false)
+		if !ok {
+			return nil, false, 0, false
+		}
+		if two {
+			if found {
+				tab[k] = v
+			}
+		} else if v != d {
+			tab[k] = v
+		}
+	}
+	return tab, two, d, true
 }
 
 // c17Resolve runs FindAVPWithVendor in one scenario; returns the result tuple (or nil with it.bad set).
